@@ -20,8 +20,10 @@ from . import common as C
 OCAML = ["cluster"]
 GO = ["cluster"]
 PROP = "props/C16.v"
-PROOFS = ["proofs/ClusterPlan.v", "proofs/ClusterRun.v", "proofs/ClusterInv.v", "proofs/ClusterStep.v",
-          "proofs/ClusterMain.v", "model/Cluster.v", "model/ClusterLTS.v", "lib/LTS.v"]
+PROOFS = ["proofs/ClusterPlan.v", "proofs/ClusterFix.v", "proofs/ClusterFixPlan.v", "proofs/ClusterRun.v",
+          "proofs/ClusterInv.v", "proofs/ClusterStep.v", "proofs/ClusterMain.v", "proofs/ClusterRound.v",
+          "proofs/ClusterRoundB.v", "proofs/ClusterRoundC.v", "proofs/ClusterHist.v",
+          "model/Cluster.v", "model/ClusterLTS.v", "lib/LTS.v"]
 HOOK = "runnables/httpcluster/verif_export.go"
 SFX = ":stop"
 
